@@ -391,7 +391,7 @@ func TestC12Trees(t *testing.T) {
 		}
 		for _, txt := range []string{minimal, redundant, full} {
 			c := &Case{Prop: "C12", Kind: "meaning", Script: "return " + txt + ";", Vars: vars, Exp: exp,
-				HostVals: map[string]lang.Value{}, NoOpt: rapid.Bool().Draw(rt, "noopt") || sqrtFold}
+				HostVals: map[string]lang.Value{}, NoOpt: rapid.Bool().Draw(rt, "noopt") || sqrtFold, Hazard: lang.HasRange(tree)}
 			if err := runMeaning(c); err != nil {
 				violation(rt, "C12", c, "%v", err)
 			}
@@ -407,7 +407,7 @@ func TestC12Trees(t *testing.T) {
 // runMeaning runs a C12 meaning case: host functions f (argument count + 1)
 // and g (a fixed array) are provided.
 func runMeaning(c *Case) error {
-	if c.Exp.Unspec && strings.HasPrefix(c.Exp.Why, "resource:") {
+	if c.Exp.Unspec && (c.Hazard || strings.HasPrefix(c.Exp.Why, "resource:")) {
 		return nil
 	}
 	r := eng.NewRunner(c.Script)
